@@ -140,6 +140,8 @@ class ContDomain(Domain):
                 return v if v is not None else Unknown('param:' + p['name'])
             return Lin.sym('p:' + p['name'])
         if 'RingBuffer<' in ct or 'Array<' in ct or 'RandomAccessIndexIterator<' in ct:
+            if getattr(self, 'self_alias', False) and ('RingBuffer<' in ct or 'Array<' in ct) and (p.get('isref') or p.get('isrref')):
+                return Ref(('f', ('this',)))          # x = x / x = std::move(x): the parameter *is* this object, every field is shared
             return Ref(('f', (p['name'],)))
         if 'initializer_list' in ct: return Sym('il:' + p['name'])
         return Sym('param:' + p['name'])
@@ -270,6 +272,7 @@ class ContDomain(Domain):
             a = l.loc if isinstance(l, Ref) else None; b = r.loc if isinstance(r, Ref) else None
             if a is not None and b is not None:
                 if a == b: return op == '=='
+                if getattr(self, 'self_alias', False): return op == '=='
                 v = False if self.ctor else self.rows.get('self', False); self.consulted.add('self')
                 return v if op == '==' else not v
         ll = as_lin(l) if not isinstance(l, (ModVal, MinVal, Bytes)) else None
